@@ -1396,7 +1396,26 @@ class Emitter:
             one = ('lit', 1, 'usize')
             if not rev:
                 pre = [('let', ('pid', bound), 'usize', hi), ('let', ('pid', var), 'usize', lo)]
-                loop = ('while', ('bin', '<', iv, ('path', [bound])), ('block', body[1] + [('assign', iv, ('bin', '+', iv, one))]))
+                step = ('assign', iv, ('bin', '+', iv, one))
+
+                def cont(node):
+                    # a `continue` of THIS loop still advances the index (it only skips the rest of the body)
+                    if isinstance(node, tuple):
+                        if node and node[0] == 'continue':
+                            return ('expr_nosemi', ('if', ('bool', True), ('block', [step, ('continue',)]), None))
+                        if node and node[0] in ('while', 'whilelet', 'for', 'foreach', 'closure'):
+                            return node
+                        return tuple(cont(x) for x in node)
+                    if isinstance(node, list):
+                        out = []
+                        for x in node:
+                            if isinstance(x, tuple) and x and x[0] == 'continue':
+                                out += [step, x]
+                            else:
+                                out.append(cont(x))
+                        return out
+                    return node
+                loop = ('while', ('bin', '<', iv, ('path', [bound])), ('block', cont(body[1]) + [step]))
             else:
                 pre = [('let', ('pid', bound), 'usize', lo), ('let', ('pid', var), 'usize', hi)]
                 loop = ('while', ('bin', '>', iv, ('path', [bound])), ('block', [('assign', iv, ('bin', '-', iv, one))] + body[1]))
@@ -1691,6 +1710,14 @@ class Emitter:
                     continue
                 # recurse into nested blocks
                 out.append(rw_stmt(st, prov, shadow))
+            if splits:
+                def jumps(node):
+                    if isinstance(node, tuple):
+                        return bool(node) and (node[0] in ('break', 'continue', 'return') or any(jumps(x) for x in node))
+                    return isinstance(node, list) and any(jumps(x) for x in node)
+                first = min(i for i, st in enumerate(blk[1]) if st[0] == 'let' and st[3][0] == 'mcall' and st[3][2] == 'split_at_mut')
+                if jumps(blk[1][first:]):
+                    raise TranslateError('break / continue / return while the halves of split_at_mut are live')
             for v, t, r in splits:
                 # the two halves go out of scope here: their contents are the buffer's
                 out.append(('assign', ('path', [v]), ('concat', ('path', [t]), ('path', [r]))))
